@@ -148,6 +148,9 @@ Plan generate(uint64_t seed, uint64_t run, bool thorough) {
         p.ops.push_back(o);
     }
     p.min_ops = 1;
+    // bound the simulated work of a script (every operation is executed twice: reused and fresh object)
+    if ((p.get("nt") > 4 || p.get("ncycle") > 1) && p.get("maxiter") > 30) p.set("maxiter", 30, 1);
+    if (p.get("nt") > 8 && p.get("n") > 120) p.set("n", 120, 2);
     draw_schedule(r, p.sched, (int)p.get("nt"));
     p.sched.max_decisions = 2000000000ULL;     // long scripts of non-converging solves are legitimate; the wall-clock watchdog bounds them
     return p;
@@ -267,7 +270,7 @@ Result execute(const Plan &p) {
         prm.put("precond.coarse_enough", p.get("coarse_enough"));
         prm.put("precond.npre", p.get("npre")); prm.put("precond.npost", p.get("npre")); prm.put("precond.ncycle", p.get("ncycle")); prm.put("precond.pre_cycles", p.get("pre_cycles"));
         prm.put("precond.allow_rebuild", sc.allow_rebuild);
-        if (p.get("ncycle") > 1) prm.put("precond.max_levels", 6);      // a W-cycle over a deep hierarchy costs 2^levels
+        if (p.get("ncycle") > 1) prm.put("precond.max_levels", 4);      // a W-cycle over a deep hierarchy costs 2^levels
     }
     sim::RunStatus st = world(nt, p.sched, [&]() { if (sc.relax_only) run_script<RelaxSolver>(p, sc, res); else run_script<AmgSolver>(p, sc, res); });
     res.absorb(st); res.deviations = st.deviations;
